@@ -201,7 +201,7 @@ fn run(c: &Case, mode: Mode, only: Option<Kind>) -> RunResult {
                                 let r = conn.open_channel(None);
                                 let s = show(&r);
                                 if let Ok(ch) = r {
-                                    std::mem::forget(ch);
+                                    crate::run::bury(ch);
                                 }
                                 (Some(conn), s)
                             }
@@ -209,7 +209,7 @@ fn run(c: &Case, mode: Mode, only: Option<Kind>) -> RunResult {
                                 let r = conn.open_channel(Some(9));
                                 let s = show(&r);
                                 if let Ok(ch) = r {
-                                    std::mem::forget(ch);
+                                    crate::run::bury(ch);
                                 }
                                 (Some(conn), s)
                             }
